@@ -73,6 +73,20 @@ struct verif_mutex
   void unlock() { held = false; }
 };
 template <class M> struct verif_lock_guard { M& m; explicit verif_lock_guard(M& mm) : m(mm) { m.lock(); } ~verif_lock_guard() { m.unlock(); } };
+// std::unique_lock as far as a changed tree may use it: blocking, try_to_lock, defer_lock
+template <class M> struct verif_unique_lock
+{
+  M* m; bool owns = false;
+  explicit verif_unique_lock(M& mm) : m(&mm) { m->lock(); owns = true; }
+  verif_unique_lock(M& mm, std::try_to_lock_t) : m(&mm) { if (!m->held) { m->lock(); owns = true; } }
+  verif_unique_lock(M& mm, std::defer_lock_t) : m(&mm) {}
+  ~verif_unique_lock() { if (owns) m->unlock(); }
+  void lock() { m->lock(); owns = true; }
+  bool try_lock() { if (m->held) return false; m->lock(); owns = true; return true; }
+  void unlock() { m->unlock(); owns = false; }
+  bool owns_lock() const { return owns; }
+  explicit operator bool() const { return owns; }
+};
 
 // what the writer that drops the last-but-one reference has published: set by the driver (it knows the channel type)
 extern std::function<void(void*, vs::Hist*&, std::size_t&)> verif_release_view;
@@ -126,6 +140,7 @@ using std::verif_fence;
 #define atomic verif_atomic
 #define mutex verif_mutex
 #define lock_guard verif_lock_guard
+#define unique_lock verif_unique_lock
 #define shared_ptr verif_shared_ptr
 #define make_shared verif_make_shared
 #define atomic_thread_fence verif_fence
@@ -137,6 +152,7 @@ using std::verif_fence;
 #undef atomic_thread_fence
 #undef make_shared
 #undef shared_ptr
+#undef unique_lock
 #undef lock_guard
 #undef mutex
 #undef atomic
@@ -371,6 +387,18 @@ struct Runner
     if (op == "ms") { vs::tid = 99; session.setMinSeverity(static_cast<binlog::Severity>(std::stoul(f[1]))); return "-"; }
     if (op == "co") { return consume(f.size() > 1 ? f[1] : std::string()); }
     if (op == "cf") { return consume(std::string(), std::stoull(f[1])); }       // consume into a sink whose f[1]-th write fails
+    if (op == "cb")
+    {
+      // consume called at an instant when another thread holds the session mutex (inside createChannel / addEventSource / setClockSync):
+      // the call must block until the mutex is free and then deliver; the stand-in unwinds the blocked attempt and repeats it after the release
+      session._mutex.held = true; vs::try_inside = true; std::string r;
+      bool blocked_ = false;
+      try { r = consume(std::string()); } catch (const std::verif_would_block&) { blocked_ = true; }
+      vs::try_inside = false; vs::in_consume = false; vs::hookA = nullptr; vs::hookB = nullptr;
+      session._mutex.held = false;
+      if (blocked_) r = consume(std::string());
+      return r;
+    }
     if (op == "rc" || op == "rs")
     {
       // rs:<k>:<acts>: other threads act while the k-th write of reconsumeMetadata is in progress
